@@ -69,7 +69,7 @@ CLAIMED = {
                 "canonical and documented lazy inputs, no addition can wrap 2^64 and no subtraction can underflow, the "
                 "non-lazy forms end in [0,q) and the lazy forms inside their documented ranges; the NTT wrappers reach "
                 "the transform of their direction and laziness; the random start of the primitive-root search is confined "
-                "to a minimum over a start-independent set (who-may-call + scan shape), so the root is deterministic. Also: the ntt/intt _p/_ps wrappers hand every component to the transform exactly once (the running offset advances by exactly the slice width).",
+                "to a minimum over a start-independent set (who-may-call + scan shape), so the root is deterministic. Also: the ntt/intt _p/_ps wrappers hand every component to the transform exactly once (the running offset advances by exactly the slice width). The candidate root and every other operand of the modular primitives of the root search is a residue (R-RESIDUE with identity-return sinks: exponentiate_u64_mod hands its operand back for exponent 1).",
         "note": _TB + "External fact used: multiply_u64operand_mod_lazy returns a value below 2q (its documented contract, "
                 "covered structurally by C08). Not decided: that the transform is the evaluation map in bit-reversed "
                 "order, invertibility, the convolution property.",
@@ -117,7 +117,7 @@ CLAIMED = {
                 "formats, containers and RNS-plaintext wrappers) and per scheme projection: the writer's and the reader's "
                 "wire grammars are equal as trees (typed leaves in order, loop nesting, conditionals); the size function's "
                 "fixed byte count equals the writer's per conditional branch and has a variable term wherever the writer "
-                "loops; readers of possibly seed-compressed objects expand the seed before returning. The size function is evaluated as a symbolic sum (lets, +=, loops, conditionals, fold) and private helpers are expanded in place on all three sides.",
+                "loops; readers of possibly seed-compressed objects expand the seed before returning. The size function is evaluated as a symbolic sum (lets, +=, loops, conditionals, fold) and private helpers are expanded in place on all three sides. R-SLOTS: a position-addressed key table (Vec<Vec<PublicKey>>, premise re-read from the code) is rebuilt only through position-preserving iterator adaptors.",
         "note": _TB + "Not decided: equality of restored objects as values, numerical loop bounds, the closed-form "
                 "variable part of the size functions, reconstruction in an independently built context.",
         "technique": "wire-grammar extraction from typed HIR with scheme projection; tree comparison of writer/reader/size + symbolic size sums",
@@ -129,7 +129,7 @@ CLAIMED = {
                 "discovered by type): no short-count write/read primitive without retry, no unwrap/expect on an "
                 "io::Result, every io::Result propagated. These call-site properties are exactly what 'short writes "
                 "tolerated, faults reported, early end of stream returns an error, no panic' require, and they hold "
-                "for all writers/readers and all truncation offsets because they hold on every path. Results consumed through iterator adaptors are followed: flat_map / filter_map / flatten over Results drop the error.",
+                "for all writers/readers and all truncation offsets because they hold on every path. Results consumed through iterator adaptors are followed: flat_map / filter_map / flatten over Results drop the error. read_to_end / read_to_string count as short-read primitives unless the count or the buffer's length is compared.",
         "note": _TB + "Not decided: behaviour on corrupted (not merely truncated) input; byte-level content. "
                 "Panic sites that depend on fully-read values are inventoried, not proved unreachable.",
         "technique": "call-site error-discipline analysis over typed HIR (resolved callees, consumption of io::Result values) (incl. iterator adaptors)",
@@ -159,7 +159,7 @@ CLAIMED = {
                 "applies a transform / RNS routine outside its domain, or returns lazy or wrongly flagged data; in the key-switch "
                 "back end every stage touching an RNS slot of the scratch product uses the same prime index at every "
                 "level (symbolic unification of slot and index expressions); in the add/sub back ends every transfer of the "
-                "second operand into the result is selected by the subtract flag, with different routines per mode. Also: the pairwise product tree of multiply_many stays in bounds for odd counts and keeps its intermediate products.",
+                "second operand into the result is selected by the subtract flag, with different routines per mode. Also: the pairwise product tree of multiply_many stays in bounds for odd counts and keeps its intermediate products. R-TENSOR: in the ciphertext-by-ciphertext products the slice indices of every dyadic product add up to the output component and the largest index into each operand is min(i, that operand's own size - 1) (symbolic maxima over the summation loop).",
         "note": _TB + "Not decided: exactness of the BEHZ steps, noise growth, the arithmetic of "
                 "balance_correction_factors, equality with the ring product.",
         "technique": "symbolic buffer dimensions at call sites + operation-class delegation + symbolic metadata + representation typestate + slot/prime index unification + mode-flag control dependence + counter-loop bound / dead-store contradiction",
@@ -171,7 +171,7 @@ CLAIMED = {
                 "normally-returning path lacks a refusing branch on the levels of both ciphertexts, on the scales of "
                 "both operands, or on the resulting scale against the modulus size (interprocedural guard dominance); the scale recorded by "
                 "multiply / square / multiply_plain / rescale is the product or quotient the operation implies (symbolic "
-                "metadata); the shared key-switch and add/sub back ends satisfy the slot/prime and mode-flag rules of C02. Also: every is_scale_within_bounds test uses the context data of the level recorded on the result.",
+                "metadata); the shared key-switch and add/sub back ends satisfy the slot/prime and mode-flag rules of C02. Also: every is_scale_within_bounds test uses the context data of the level recorded on the result. R-TENSOR: in the ciphertext-by-ciphertext product of CKKS the slice indices of every dyadic product add up to the output component and the largest index into each operand is min(i, that operand's own size - 1) (symbolic maxima over the summation loop).",
         "note": _TB + "Not decided: the numerical error bound, the tolerance used when comparing scales, and the "
                 "floating-point value of the recorded scale (only its symbolic form over the operands' scales).",
         "technique": "scheme-projected guard-dominance dataflow + symbolic metadata over typed HIR with callee summaries + guard-argument / result-level agreement",
@@ -234,7 +234,7 @@ CLAIMED = {
                 "taken from the current value or after an exiting check against the snapshot (no check-then-act "
                 "append); no shrinking call through a guard; the shareable types have no interior-mutable field other "
                 "than these locks; all shareable types are Send+Sync (compile-pass witnesses; compile_fail witnesses "
-                "with twins in the thorough tier).",
+                "with twins in the thorough tier). R-LOCK(try): a publication guarded by try_write / try_read / try_lock is not simply skipped when the lock is busy (the failure arm diverges, retries or acquires blocking) and a try-acquisition is never unwrapped.",
         "note": _TB + "rustc's Send/Sync and borrow checking for the witnesses. Not decided: linearizability as a "
                 "property of histories; that a published array is longer than the one it replaces.",
         "technique": "lock live-range dataflow on MIR + dominance of publishes on HIR + type-level Send/Sync witnesses",
@@ -246,7 +246,7 @@ CLAIMED = {
                 "(2) the refusal clause: the revelation protocol's finish passes a completeness assertion over the "
                 "received slots before every summation and every normal return, and no protocol reads a revelation "
                 "round's result except through finish()/finish_take(); (3) a certificate that message handlers store "
-                "into slot[sender_id] only, so the final state is independent of delivery order. Also: no field written by receive_X (transitively, through delegation and views) is read by send_X.",
+                "into slot[sender_id] only, so the final state is independent of delivery order. Also: no field written by receive_X (transitively, through delegation and views) is read by send_X. R-TAPE: no call that receives the common generator is control-dependent on participant_id (branch conditions and loop bounds followed through local definitions), so every party consumes the common tape identically.",
         "note": _TB + "Not decided: that collective keys equal the sum-key objects, plaintext preservation of the "
                 "protocols, identical keys across parties as values.",
         "technique": "scheme-projected sibling callee-set agreement + must-pass-through dominance + effect-summary certificate + access-path effect separation",
@@ -256,7 +256,7 @@ CLAIMED = {
         "text": "Decides for the matmul/conv2d helper structs: no buffer handed to an encoder has the global "
                 "counterpart of a block dimension as a length factor (it would exceed the slot count for every shape "
                 "the helper splits); the _bfv/_ckks twins of every helper method have identical integer skeletons; "
-                "output re-encoding stores each tensor cell exactly where output decoding loads it from. Also: channel-slot conservation of the packed 2-D convolution (slot(weights) + slot(inputs) == slot read by the decoder) as a polynomial identity; and (R-DECODELEN) a vector returned by BatchEncoder::decode_polynomial(_new) — as short as the plaintext decryption trimmed — is resized before any read at a computed index (premise re-read from Decryptor and BatchEncoder on every run).",
+                "output re-encoding stores each tensor cell exactly where output decoding loads it from. Also: channel-slot conservation of the packed 2-D convolution (slot(weights) + slot(inputs) == slot read by the decoder) as a polynomial identity; and (R-DECODELEN) a vector returned by BatchEncoder::decode_polynomial(_new) — as short as the plaintext decryption trimmed — is resized before any read at a computed index (premise re-read from Decryptor and BatchEncoder on every run). R-CONVIDX(tiles): the fast tile coordinate of the input encoder's emission order is the dimension the output side takes as `index % count`.",
         "note": _TB + "Not decided: equality with the plaintext product/correlation, block-search optimality, the BOLT "
                 "helpers' modular slot arithmetic beyond twin agreement.",
         "technique": "symbolic length factors + canonicalised index-expression agreement between sibling methods + cross-function polynomial identity",
